@@ -1,6 +1,16 @@
-"""C02 - approving create and fix repairs every reached snapshot in a single run (D-core driver)."""
+"""C02 - approving create and fix repairs every reached snapshot in a single run.
+
+Driver D-core (vlib.world.core_session): the real snapshot() call sites, value classes, adapters, _align, all
+Change kinds, apply_all, generic_sequence_update, ChangeRecorder, SourceFile.new_code, real tokenizer, real black.
+Symbolic: every leaf of the previous content and of the observed value; concrete: the shapes (enumerated).
+"""
 from __future__ import annotations
 
+import ast
+import itertools
+
+from harness.support import SUPPORT_NS
+from vlib import shapes as S
 from vlib import world
 from vlib.common import Cond, PathLog, mkfn
 from vlib.world import W
@@ -11,22 +21,9 @@ world.install_shims()
 HEAD = "from inline_snapshot import snapshot\n\n"
 
 
-def names(prefix, n):
-    return [f"{prefix}{i}" for i in range(n)]
-
-
-def lst(ns_):
-    return "[" + ", ".join(ns_) + "]"
-
-
-def tup(ns_):
-    if len(ns_) == 1:
-        return f"({ns_[0]},)"
-    return "(" + ", ".join(ns_) + ")"
-
-
-def passes_disabled(text, comparisons, ns):
-    """Re-execute the recorded comparisons against the values read back from the rewritten text."""
+def passes_disabled(text, comparisons):
+    """Re-execute the recorded comparisons against the values read back from the rewritten text
+    (snapshot := identity).  comparisons: [(index of snapshot call, op, observed value)]."""
     vals = world.snapshot_values(text)
     for idx, op, x in comparisons:
         v = vals[idx]
@@ -51,58 +48,139 @@ def passes_disabled(text, comparisons, ns):
     return True
 
 
-# --- family 1: sequence -> sequence ------------------------------------------------------------
-
-def seq_fix(kind_old, n_old, kind_new, n_new, hand, vals_old, vals_new, extra):
-    """An earlier failing snapshot (x9 == snapshot(c9)), then the container snapshot, then an empty one."""
-    onames = names("h" if hand else "c", n_old)
-    ns = {}
-    for n_, v in zip(onames, vals_old):
-        ns[n_] = v
-    ns["c9"] = extra[0]
-    ns["x9"] = extra[1]
-    new = list(vals_new) if kind_new == "list" else tuple(vals_new)
-    ns["new"] = new
-    old_src = lst(onames) if kind_old == "list" else tup(onames)
-    t = HEAD + f"def test_a():\n    assert x9 == snapshot(c9)\n    assert new == snapshot({old_src})\n    assert x9 == snapshot()\n"
+def fix_case(old_src, new_src, leafvals, e0, e1, full=True):
+    """full: an earlier == snapshot that may fail, then the snapshot under test, then an empty one.
+    not full: only the snapshot under test."""
+    ns = dict(SUPPORT_NS)
+    ns.update(leafvals)
+    if full:
+        ns["c9"] = e0
+        ns["x9"] = e1
     world.reset(ns)
+    new = eval(new_src, dict(ns))
+    ns["new"] = new
+    W.ns["new"] = new
+    if full:
+        t = HEAD + f"def test_a():\n    assert x9 == snapshot(c9)\n    assert new == snapshot({old_src})\n    assert x9 == snapshot()\n"
+    else:
+        t = HEAD + f"def test_a():\n    assert new == snapshot({old_src})\n"
     r = world.core_session(t, {"create", "fix"})
-    ok = passes_disabled(r.text, [(0, "==", ns["x9"]), (1, "==", new), (2, "==", ns["x9"])], ns)
-    import ast
     ast.parse(r.text)
-    PathLog.record(r.text, nontrivial=r.changed, sample={"old": old_src, "new_len": n_new, "rewritten": world.snapshot_arg_sources(r.text)})
+    if full:
+        ok = passes_disabled(r.text, [(0, "==", e1), (1, "==", new), (2, "==", e1)])
+    else:
+        ok = passes_disabled(r.text, [(0, "==", new)])
+    PathLog.record(old_src + "=>" + r.text, nontrivial=r.changed,
+                   sample={"previous": old_src, "observed": new_src, "rewritten_args": world.snapshot_arg_sources(r.text)})
     return ok
 
 
-GLB = {"seq_fix": seq_fix, "__name__": "harness.c02"}
+GLB = {"fix_case": fix_case, "__name__": "harness.c02"}
 
 
-def _seq_cond(kind_old, n_old, kind_new, n_new, hand=False, twin=False):
-    params = [(f"o{i}", "int") for i in range(n_old)] + [(f"n{i}", "int") for i in range(n_new)] + [("e0", "int"), ("e1", "int")]
+FULL_LIMIT = {"quick": 5, "thorough": 99}
+TIER = ["quick"]
+
+
+def _cond(name, old_spec, new_spec, group, timeout=900, twin=False, bounds=""):
+    old_src, new_src = S.src(old_spec), S.src(new_spec)
+    names = list(dict.fromkeys(S.leaves(old_spec) + S.leaves(new_spec)))
+    full = len(names) <= FULL_LIMIT[TIER[0]]
+    params = [(n, "int") for n in names] + ([("e0", "int"), ("e1", "int")] if full or not names else [])
     body = f"""
-    return seq_fix({kind_old!r}, {n_old}, {kind_new!r}, {n_new}, {hand!r}, [{', '.join(f'o{i}' for i in range(n_old))}], [{', '.join(f'n{i}' for i in range(n_new))}], [e0, e1])
+    return fix_case({old_src!r}, {new_src!r}, {{{', '.join(f'{n!r}: {n}' for n in names)}}}, {'e0, e1' if full or not names else '0, 0'}, {full!r})
     """
-    name = f"seq_{kind_old}{n_old}_{kind_new}{n_new}" + ("_hand" if hand else "") + ("_twin" if twin else "")
-    fn = mkfn(name, params, body, GLB, post="not _" if twin else "_")
-    return Cond(name, fn, timeout=60 if twin else 900, twin=twin, group="seq",
-                bounds=f"previous {kind_old} of {n_old} {'hand-written' if hand else 'canonical'} int elements, observed {kind_new} of {n_new} ints; earlier failing == snapshot and later empty snapshot in the same test")
+    if not bounds:
+        bounds = f"previous content `{old_src}`, observed `{new_src}`, all leaves symbolic ints" + ("; earlier possibly-failing snapshot and later empty snapshot in the same test" if full else "; single snapshot in the test")
+    fn = mkfn(name + ("_twin" if twin else ""), params, body, GLB, post="not _" if twin else "_")
+    return Cond(name + ("_twin" if twin else ""), fn, timeout=60 if twin else timeout, twin=twin, group=group,
+                bounds=bounds)
+
+
+def cn(n, p="c"):
+    return [f"{p}{i}" for i in range(n)]
+
+
+def ordered_subsets(keys, maxlen):
+    out = [()]
+    for k in range(1, maxlen + 1):
+        out += list(itertools.permutations(keys, k))
+    return out
 
 
 def conditions(tier):
-    N = 2 if tier == "quick" else 3
+    q = tier == "quick"
+    TIER[0] = tier
     conds = []
-    for n_old in range(N + 1):
-        for n_new in range(N + 1):
-            conds.append(_seq_cond("list", n_old, "list", n_new))
-    conds.append(_seq_cond("list", 2, "list", 2, twin=True))
+    N = 3 if q else 4
+    # 1. sequences
+    for no in range(N + 1):
+        for nn in range(N + 1):
+            conds.append(_cond(f"list{no}_list{nn}", S.L(*cn(no)), S.L(*cn(nn, "n")), "seq"))
+    NT_ = 2 if q else 3
+    for no in range(NT_ + 1):
+        for nn in range(NT_ + 1):
+            conds.append(_cond(f"tuple{no}_tuple{nn}", S.T(*cn(no)), S.T(*cn(nn, "n")), "seq"))
+    for no, nn in ([(2, 2), (3, 2), (2, 3)] if q else [(2, 2), (3, 2), (2, 3), (3, 3), (1, 2), (2, 1)]):
+        conds.append(_cond(f"handlist{no}_list{nn}", S.L(*cn(no, "h")), S.L(*cn(nn, "n")), "seq-hand"))
+    # 2. previous content of another type
+    shapes_old = {"int": S.leaf("c0"), "list": S.L("c0", "c1"), "tuple": S.T("c0"), "dict": S.D(("1", "c0")), "call": S.C("P", a="c0"), "hand": S.leaf("h0")}
+    shapes_new = {"int": S.leaf("n0"), "list": S.L("n0", "n1"), "tuple": S.T("n0"), "dict": S.D(("1", "n0"), ("2", "n1")), "call": S.C("P", a="n0", b="n1")}
+    for ko, so in shapes_old.items():
+        for kn, sn in shapes_new.items():
+            if ko == kn and ko in ("list", "tuple"):
+                continue
+            conds.append(_cond(f"type_{ko}_{kn}", so, sn, "type-change"))
+    # 3. dicts (concrete keys, symbolic values)
+    olds = [(), ("1",), ("1", "2")] if q else [(), ("1",), ("1", "2"), ("1", "2", "3")]
+    news = ordered_subsets(["1", "2", "3"], 2) if q else ordered_subsets(["1", "2", "3", "4"], 3)
+    for ok_ in olds:
+        for nk in news:
+            o = S.D(*[(k, f"c{i}") for i, k in enumerate(ok_)])
+            n = S.D(*[(k, f"n{i}") for i, k in enumerate(nk)])
+            conds.append(_cond(f"dict{''.join(ok_) or '_'}_dict{''.join(nk) or '_'}", o, n, "dict"))
+    # 4. constructor calls
+    call_olds = {
+        "kw_a": S.C("P", a="c0"), "pos_a": S.C("P", "c0"), "kw_ab": S.C("P", a="c0", b="c1"), "pos_ab": S.C("P", "c0", "c1"),
+        "kw_abc": S.C("P", a="c0", b="c1", c=S.L("c2")), "mix_abc": S.C("P", "c0", b="c1", c=S.L("c2")), "kw_ba": S.C("P", b="c1", a="c0"),
+        "kw_ac": S.C("P", a="c0", c=S.L("c2")),
+    }
+    call_news = {"a": S.C("P", a="n0"), "ab": S.C("P", a="n0", b="n1"), "abc": S.C("P", a="n0", b="n1", c=S.L("n2")), "ac0": S.C("P", a="n0", c=S.L())}
+    for ko, so in call_olds.items():
+        for kn, sn in call_news.items():
+            conds.append(_cond(f"dc_{ko}_{kn}", so, sn, "dataclass"))
+    conds.append(_cond("attrs_ab_ab", S.C("A", a="c0", b="c1"), S.C("A", a="n0", b="n1"), "dataclass"))
+    conds.append(_cond("attrs_a_ab", S.C("A", a="c0"), S.C("A", a="n0", b="n1"), "dataclass"))
+    conds.append(_cond("nt_ab_ab", S.C("NT", a="c0", b="c1"), S.C("NT", a="n0", b="n1"), "dataclass"))
+    conds.append(_cond("nt_a_ab", S.C("NT", a="c0"), S.C("NT", a="n0", b="n1"), "dataclass"))
+    # 5. nested containers
+    conds.append(_cond("nest_ll", S.L(S.L("c0"), S.L("c1")), S.L(S.L("n0"), S.L("n1", "n2")), "nested"))
+    conds.append(_cond("nest_dl", S.D(("1", S.L("c0"))), S.D(("1", S.L("n0", "n1"))), "nested"))
+    conds.append(_cond("nest_ldc", S.L(S.C("P", a="c0")), S.L(S.C("P", a="n0", b="n1")), "nested"))
+    conds.append(_cond("nest_q", S.C("Q", p=S.C("P", a="c0"), n="c1"), S.C("Q", p=S.C("P", a="n0", b="n1"), n="n2"), "nested"))
+    conds.append(_cond("nest_lt", S.L(S.T("c0"), "c1"), S.L(S.T("n0", "n1"), "n2"), "nested"))
+    if not q:
+        conds.append(_cond("nest_ll22", S.L(S.L("c0", "c1"), S.L("c2", "c3")), S.L(S.L("n0", "n1"), S.L("n2", "n3")), "nested"))
+        conds.append(_cond("nest_dd", S.D(("1", S.D(("1", "c0"))), ("2", "c1")), S.D(("1", S.D(("2", "n0"))), ("3", "n1")), "nested"))
+    conds.append(_cond("list2_list2", S.L("c0", "c1"), S.L("n0", "n1"), "seq", twin=True))
+    conds.append(_cond("dc_kw_ab_abc", call_olds["kw_ab"], call_news["abc"], "dataclass", twin=True))
     return conds
 
 
-META = {"bounds": {"quick": "n<=2", "thorough": "n<=3"}, "assumptions": []}
+META = {
+    "bounds": {"quick": "lists <=3/<=3, tuples <=2/<=2, dicts <=2 old keys x ordered subsets of 3 keys (<=2), 8x4 dataclass call forms, attrs, namedtuple, 5 nested shapes, 6x5 type changes; all leaves symbolic ints",
+               "thorough": "lists <=4/<=4, tuples <=3/<=3, dicts <=3 old keys x ordered subsets of 4 keys (<=3), more hand-written and nested shapes"},
+    "outside": "containers longer than the bound, nesting deeper than 2, leaves other than ints (strings: C12), layouts other than the template's (C03), unmanaged parts (C10)",
+    "assumptions": [
+        "stub: repr of a symbolic int leaf is a name token (canonical constant c<k> if equal, else a fresh placeholder) - validated by concrete replays with real repr",
+        "black.format_str, executing.Source.executing, inspect.getmodule, SourceFile.asttokens/_token_of_node, compile run untraced (NoTracing): their inputs are concrete program text",
+        "dict keys are concrete (hashing a symbolic int would realise it)",
+    ],
+}
 
-# pre-warm caches with one concrete run (executing / asttokens / black), in concrete mode
 W.concrete = True
 try:
-    seq_fix("list", 2, "list", 2, False, [1, 2], [1, 3], [1, 1])
+    fix_case("[c0, c1]", "[n0, n1]", {"c0": 1, "c1": 2, "n0": 1, "n1": 3}, 1, 1)
+    fix_case("P(a=c0)", "P(a=n0, b=n1)", {"c0": 1, "n0": 1, "n1": 3}, 1, 2)
 finally:
     W.concrete = False
